@@ -39,6 +39,10 @@ const (
 
 var qhClassNames = []string{"ok", "T", "P", "U", "S4", "S5"}
 
+// replies of the next hop are multi-line and not limited to ASCII (go-smtp joins
+// the lines of a reply with "\n")
+const qhReplyTail = "\nzweite Zeile: Postfach größer als erlaubt"
+
 func qhErr(class int, what string) error {
 	switch class {
 	case qhT:
@@ -48,9 +52,9 @@ func qhErr(class int, what string) error {
 	case qhU:
 		return errors.New(what + ": scripted unclassified failure")
 	case qhST:
-		return &exterrors.SMTPError{Code: 451, EnhancedCode: exterrors.EnhancedCode{4, 4, 1}, Message: "scripted 451 " + what}
+		return &exterrors.SMTPError{Code: 451, EnhancedCode: exterrors.EnhancedCode{4, 4, 1}, Message: "scripted 451 " + what + qhReplyTail}
 	case qhSP:
-		return &exterrors.SMTPError{Code: 550, EnhancedCode: exterrors.EnhancedCode{5, 1, 1}, Message: "scripted 550 " + what}
+		return &exterrors.SMTPError{Code: 550, EnhancedCode: exterrors.EnhancedCode{5, 1, 1}, Message: "scripted 550 " + what + qhReplyTail}
 	}
 	return nil
 }
